@@ -628,11 +628,11 @@ func (q *MustPass) existsImplies(a Atom, depth int) bool {
 			}
 		}
 	}
-	if c == nil || len(c.Call.Args) != 2 {
+	if c == nil || len(callArgs(c)) != 2 {
 		return false
 	}
 	var f *ssa.Function
-	switch x := c.Call.Args[1].(type) {
+	switch x := callArgs(c)[1].(type) {
 	case *ssa.MakeClosure:
 		f, _ = x.Fn.(*ssa.Function)
 	case *ssa.Function:
@@ -644,7 +644,7 @@ func (q *MustPass) existsImplies(a Atom, depth int) bool {
 	p := f.Params[0]
 	old, had := paramBind[p]
 	oldV, hadV := paramBindV[p]
-	paramBind[p] = desc(c.Call.Args[0]) + "[*]"
+	paramBind[p] = desc(callArgs(c)[0]) + "[*]"
 	delete(paramBindV, p)
 	defer func() {
 		if had {
@@ -767,7 +767,7 @@ func rangeLoopsOver(fn *ssa.Function, pred func(collDesc string) bool) []*Loop {
 				// i < len(coll) in a loop header
 				if x.Op == token.LSS {
 					if c, ok := x.Y.(*ssa.Call); ok && isCallTo(c, "builtin:len") {
-						coll = c.Call.Args[0]
+						coll = callArgs(c)[0]
 					}
 				}
 			}
